@@ -550,6 +550,28 @@ func (c *EvalCtx) localName(name string) (tv, bool) {
 				}
 			}
 		}
+		// otherwise the definition that comes last in program order among those already executed
+		var best ssa.Value
+		bestKey := [2]int{-1, -1}
+		for _, v := range cands {
+			in, ok := v.(ssa.Instruction)
+			if !ok || in.Block() == nil {
+				continue
+			}
+			pos := 0
+			for i, x := range in.Block().Instrs {
+				if x == in {
+					pos = i
+				}
+			}
+			k := [2]int{in.Block().Index, pos}
+			if k[0] > bestKey[0] || (k[0] == bestKey[0] && k[1] > bestKey[1]) {
+				best, bestKey = v, k
+			}
+		}
+		if best != nil {
+			return tv{c.ex.val(st, best), best.Type()}, true
+		}
 		c.errf("local name %s is ambiguous (%d SSA values); name a phi or use a ghost", name, len(cands))
 	}
 	// free variables of closures
@@ -1628,6 +1650,28 @@ func (ex *Exec) staticRegionsSig(c *FuncContract, m *Clause, names []string, pty
 			switch id.Name {
 			case "region":
 				s, _ := strconv.Unquote(e.Args[0].(*ast.BasicLit).Value)
+				if _, known := ex.regionSorts[s]; !known && strings.HasPrefix(s, "chan:") {
+					tn := strings.TrimSuffix(strings.TrimSuffix(strings.TrimPrefix(s, "chan:"), ".nsent"), ".sent")
+					if i := strings.Index(tn, "."); i >= 0 && c.PkgPath != "" && strings.HasSuffix(c.PkgPath, "/"+tn[:i]) {
+						tn = tn[i+1:]
+					}
+					if el := ex.specGoType(tn, c.PkgPath); el != nil {
+						ex.hintChanRegions(el)
+					}
+				}
+				if _, known := ex.regionSorts[s]; !known && !strings.HasPrefix(s, "chan:") && strings.Count(s, ".") == 2 {
+					// "pkg.Type.field"
+					tn := s[:strings.LastIndex(s, ".")]
+					short := tn[strings.Index(tn, ".")+1:]
+					for _, cand := range []string{short, tn} {
+						func() {
+							defer func() { recover() }()
+							if el := ex.specGoType(cand, c.PkgPath); el != nil {
+								ex.hintStructRegions(el)
+							}
+						}()
+					}
+				}
 				return []string{s}
 			case "elems":
 				if xt := typeOf(e.Args[0]); xt != nil {
